@@ -201,6 +201,7 @@ def check_artefact(ctx, a, stats):
             # (iii) closed forms with measured beta
             dxR, dxZ, dyR, dyZ, valid = chords(reg, loc, neigh)
             Rp, Zp = A["Rxy"][loc], A["Zxy"][loc]
+            R_, Z_ = A["Rxy"], A["Zxy"]
             sR0, sZ0 = xchord_start(reg, loc, neigh)
             dom = gu.in_domain(a, Rp, Zp) & gu.in_domain(a, sR0, sZ0) & gu.in_domain(a, sR0 + dxR, sZ0 + dxZ)
             stats["outside_domain"] += int((~dom & np.isfinite(sR0)).sum())
@@ -328,6 +329,23 @@ def check_artefact(ctx, a, stats):
                 arc = np.sqrt(g22pol) * dy
                 cR, cZ = dyR / ey, dyZ / ey
                 v22 = valid & np.isfinite(ey) & (ey > 0)
+                if loc == "ylow":
+                    # region joins: the arc is made of two halves, each measured to the owning
+                    # region's own version of the shared edge point - compare with the sum of
+                    # the two half chords measured the same way
+                    ey = ey.copy()
+                    lo_, up_ = neigh.get("lower"), neigh.get("upper")
+                    own_f = reg.get("own_first")
+                    if lo_ is not None and own_f is not None and "own_last" in lo_:
+                        a_ = lo_["own_last"][1::2] - np.column_stack([lo_["arrays"]["Rxy"]["centre"][:, -1], lo_["arrays"]["Zxy"]["centre"][:, -1]])
+                        b_ = np.column_stack([R_["centre"][:, 0], Z_["centre"][:, 0]]) - own_f[1::2]
+                        ey[:, 0] = np.hypot(a_[:, 0], a_[:, 1]) + np.hypot(b_[:, 0], b_[:, 1])
+                        v22[:, 0] = gu.in_domain(a, Rp[:, 0], Zp[:, 0])
+                    if up_ is not None and "own_last" in reg and "own_first" in up_:
+                        a_ = reg["own_last"][1::2] - np.column_stack([R_["centre"][:, -1], Z_["centre"][:, -1]])
+                        b_ = np.column_stack([up_["arrays"]["Rxy"]["centre"][:, 0], up_["arrays"]["Zxy"]["centre"][:, 0]]) - up_["own_first"][1::2]
+                        ey[:, -1] = np.hypot(a_[:, 0], a_[:, 1]) + np.hypot(b_[:, 0], b_[:, 1])
+                        v22[:, -1] = gu.in_domain(a, Rp[:, -1], Zp[:, -1])
                 # hy is exact only to the O(1/Nfine^2) chord error of the fine contour (C05)
                 nfine = float(opts.get("finecontour_Nfine", 100))
                 # ... plus the polygon error where the surface is strongly curved: (kappa*h)^2/8,
